@@ -107,7 +107,7 @@ pcgstrf_pivotL(
     pivmax = 0.0;
     pivptr = nsupc;
     diag = EMPTY;
-    old_pivptr = nsupc;
+    old_pivptr = EMPTY;
     for (isub = nsupc; isub < nsupr; ++isub) {
         rtemp = c_abs1 (&lu_col_ptr[isub]);
 	if ( rtemp > pivmax ) {
@@ -138,6 +138,10 @@ pcgstrf_pivotL(
     thresh = u * pivmax;
     
     /* Choose appropriate pivotal element by our policy. */
+    if ( *usepr == YES && old_pivptr == EMPTY ) {
+	/* the requested pivot row is not a candidate (structurally zero) */
+	*usepr = NO;
+    }
     if ( *usepr == YES ) {
         rtemp = c_abs1 (&lu_col_ptr[old_pivptr]);
 	if ( rtemp != 0.0 && rtemp >= thresh )
